@@ -18,7 +18,7 @@ EXPLANATION = ("P1 the PEG extracted from the nom combinator calls of src/filter
                "output feeding each slot; P4 the equality / presence / substring discrimination (same evaluation), no `*` list after an ordering / approx "
                "operator, and the adjacent-asterisk test evaluated on all 121 lists of 0..4 components over {empty, x, *}; P5 the "
                "unescaper's transition table over {backslash, hex digit, other} x {WantFirst, WantSecond, Value, Error} and acceptance only "
-               "in Value, the value fold (fold_many0 closures or a loop over the consumed prefix: base case, generic step, acceptance) and the unescaper evaluated exhaustively on literals over all 5120 (state, byte) pairs (hex arithmetic included); P6 no panic source reachable from parse / parse_matched_values that is not reviewed infeasible or discharged by a guard re-read on every run; "
+               "in Value, the unescaper evaluated exhaustively on literals over all 5120 (state, byte) pairs (hex arithmetic included); WHAT unescaped() computes, whatever it is built from (a fold over the state machine, a loop, a split at backslashes + from_str_radix ...), decided as a function by exact literal evaluation of its typed HIR (nom combinators, filter.rs functions and std functions by their definitions on literals) over a finite partition of about 3100 inputs: every class of octet after a backslash (hex digit 0-9 / a-f / A-F, + - blank, the ASCII neighbours of the digit ranges, other ASCII, >= 0x80, backslash, the value terminators, end of input) with every class, every octet 0..255 in either position, with and without literal octets around, a remainder, runs of two escapes, values of the lengths around every integer constant of the code - accepted with the octet 16*hi+lo exactly when both are hex digits, rejected otherwise, every other octet unchanged, the remainder left, never a panic; where the value is computed by feeding Unescaper::feed, additionally by induction over the length: the value fold (fold_many0 closures or a loop over the consumed prefix: base case, generic step, acceptance); P6 no panic source reachable from parse / parse_matched_values that is not reviewed infeasible or discharged by a guard re-read on every run; "
                "P8 what the leaf parsers RETURN (value reading of the nom combinators next to the grammar reading: recognize = the consumed bytes, terminated / preceded / "
                "delimited = one part's output, pair / tuple, opt, many0, map, verify, peek ...): the attribute description slot of every item holds exactly the bytes the "
                "attribute-description step consumed (type and all options), the operator dispatched on is the literal consumed, the matchingRule slot holds what the step "
@@ -27,7 +27,7 @@ EXPLANATION = ("P1 the PEG extracted from the nom combinator calls of src/filter
                "between hand one part's tree upwards unchanged. Not decided: "
                "'printing the BER reproduces the input' taken whole.")
 TRUSTED = ['nom combinator semantics', 'RFC 4515 grammar transcribed below', 'rules/triage/C08.tsv']
-UNDECIDED = ['round trip through a canonical printer taken whole']
+UNDECIDED = ['round trip through a canonical printer taken whole', 'a value computation that is not a per-octet fold over Unescaper::feed is decided on literal values up to 121 octets (around every integer constant of its code), not for every length']
 ASSUMPTIONS = []
 SHARED = [('C07', ('B1.', 'B2m.', 'B4.encoder', 'B5.'), 'P7.ber-writer')]
 TRIAGE = os.path.join(engine.VERIF, 'rules', 'triage', 'C08.tsv')
@@ -896,7 +896,11 @@ def octets_of(t):
     return None
 
 def show_octets(b):
-    return ''.join(chr(c) if 0x20 <= c < 0x7f else '\\x%02x' % c for c in b)
+    s_ = lambda x: ''.join(chr(c) if 0x20 <= c < 0x7f else '\\x%02x' % c for c in x)
+    return s_(b) if len(b) <= 24 else '%s..(%d octets)..%s' % (s_(b[:6]), len(b), s_(b[-6:]))
+
+def show_hex(b):
+    return (b.hex() or '(none)') if len(b) <= 12 else '%s..(%d octets)..%s' % (b[:4].hex(), len(b), b[-4:].hex())
 
 def check_value_function(ctx, f):
     """P5.value-unescaping: the function `unescaped()` computes - whatever it is built from - is the RFC 4515 value reading (ref_value).
@@ -953,10 +957,10 @@ def check_value_function(ctx, f):
         if got is None:
             bad['decided'].append('`%s`: %s' % (shown, ', '.join('%s %s' % (o.kind, absx.fmt(o.val)[:60]) for o in outs)[:160] or 'no outcome'))
         elif exp is None and got[0] == 'ok':
-            bad['malformed-escape-rejected'].append('`%s` accepted as the octets %s' % (shown, got[2].hex() or '(none)'))
+            bad['malformed-escape-rejected'].append('`%s` accepted as the octets %s' % (shown, show_hex(got[2])))
         elif exp is not None and (got[0] == 'err' or got[2] != exp):
             kind = 'escape-yields-its-octets' if 0x5c in inp[:len(inp) - len(rest)] else 'literal-octets-unchanged'
-            bad[kind].append('`%s` %s, expected the octets %s' % (shown, 'rejected' if got[0] == 'err' else 'gives ' + (got[2].hex() or '(none)'), exp.hex() or '(none)'))
+            bad[kind].append('`%s` %s, expected the octets %s' % (shown, 'rejected' if got[0] == 'err' else 'gives ' + show_hex(got[2]), show_hex(exp)))
         elif exp is not None and got[1] != rest:
             bad['consumes-the-value-characters'].append('`%s` leaves `%s`, expected `%s`' % (shown, show_octets(got[1]), show_octets(rest)))
     texts = {
